@@ -278,8 +278,10 @@ fn error_is_accurate<F: RawFloat>(errors: u32, fp: &ExtendedFloat80) -> bool {
         // Round-to-nearest, need to check if we're close to halfway.
         // IE, b10100 | 100000, where `|` signifies the truncation point.
         let halfway = lower_n_halfway(maskbits);
-        let cmp1 = halfway.wrapping_sub(errors) < extra;
-        let cmp2 = extra < halfway.wrapping_add(errors);
+        // The error can exceed the halfway point (few extra bits, or a
+        // truncated mantissa with many leading zeros), so this cannot wrap.
+        let cmp1 = halfway.saturating_sub(errors) < extra || errors > halfway;
+        let cmp2 = extra < halfway.saturating_add(errors);
 
         // If both comparisons are true, we have significant rounding error,
         // and the value cannot be exactly represented. Otherwise, the
